@@ -138,3 +138,9 @@ def run(ctx):
     # ---- the same search loop on BINARY64 score tables of the real built-in scorers (Model/Generic.v at Model/GenericF.v), bit for bit ----
     from harness import floatstreams
     floatstreams.mw_float_stream(ctx, ctx.n(45, 300))
+
+    from harness.variants import variants_stream
+    from skchange.change_detectors import MovingWindow as _MW
+    from skchange.costs import GaussianVarCost as _GV
+    variants_stream(ctx, "MovingWindow(CUSUM)", lambda: _MW(bandwidth=5), ctx.n(3, 20), flat_make=lambda: _MW(bandwidth=5, threshold_scale=1e6))
+    variants_stream(ctx, "MovingWindow(GaussianVarCost)", lambda: _MW(change_score=_GV(), bandwidth=6, threshold_scale=1.0), ctx.n(2, 12))
